@@ -12,14 +12,20 @@
 #include "token.h"
 #include "stack.h"
 #include "writer.h"
-void mmd_outline_add_opml(DString *out, const char *source, token *current, scratch_pad *scratch);
+#ifndef FN
+#define FN mmd_outline_add_opml
+#define SRCFN mmd_print_source_opml
+#define OPENCH 'o'          /* "<outline"; the iThoughts twin (itmz.c) writes "<topic " */
+#endif
+void FN(DString *out, const char *source, token *current, scratch_pad *scratch);
 struct in { unsigned char ka, kb, kc; short base; size_t a_start, a_len, gap1, b_len, gap2, c_len; unsigned char two, doc_end, closed; } IN;
 #include "vh_in.h"
 static int n_src; static size_t src_start, src_len; static int n_close, n_open, n_quote;
-void mmd_print_source_opml(DString *out, const char *source, size_t start, size_t len) { n_src++; src_start = start; src_len = len; }
+void SRCFN(DString *out, const char *source, size_t start, size_t len) { n_src++; src_start = start; src_len = len; }
 DString *d_string_new(const char *s) { DString *d = malloc(sizeof(DString)); ASSUME(d != 0); d->str = 0; d->currentStringLength = 0; d->currentStringBufferSize = 1; return d; }
-void d_string_append_c_array(DString *d, const char *s, size_t n) { if (s[0] == '<' && s[1] == '/') n_close++; else if (s[0] == '<' && s[1] == 'o') n_open++; else if (s[0] == '"') n_quote++; }
+void d_string_append_c_array(DString *d, const char *s, size_t n) { if (s[0] == '<' && s[1] == '/') n_close++; else if (s[0] == '<' && s[1] == OPENCH) n_open++; else if (s[0] == '"' && s[1] == '>') n_quote++; }
 void d_string_append(DString *d, const char *s) {}
+char *uuid_new(void) { char *r = malloc(4); ASSUME(r != 0); r[0] = 'u'; r[1] = 0; return r; }      /* the iThoughts twin gives every topic a fresh uuid */
 void d_string_append_c(DString *d, char c) {}
 static const unsigned short KIND[8] = { BLOCK_H1, BLOCK_H2, BLOCK_H3, BLOCK_H4, BLOCK_H5, BLOCK_H6, BLOCK_SETEXT_1, BLOCK_SETEXT_2 };
 static int lvl(unsigned k) { return k < 6 ? (int) k + 1 : (int) k - 5; }
@@ -40,7 +46,7 @@ int main(void) {
 	if (two) { ASSUME(lvl(IN.ka) < lvl(IN.kb)); stack_push(sp.outline_stack, a); }
 	stack_push(sp.outline_stack, b);
 	DString *out = d_string_new("");
-	mmd_outline_add_opml(out, "", c, &sp);
+	FN(out, "", c, &sp);
 	/* (a) the note of the last open item */
 	if (!(IN.closed & 1)) {
 		size_t body_start = (IN.kb >= 6) ? body_b->start : b_start + IN.b_len;
